@@ -1,2 +1,3 @@
 import LpModel.C20.Units
 import LpModel.C20.Generated
+import LpModel.C20.IO
